@@ -268,6 +268,50 @@ func expandFacts(fs []Fact) []Fact {
 					}
 				}
 			}
+		case *ssa.BinOp:
+			// a nil test of a phi (the error temporary of an inlined helper): if only one
+			// incoming edge can have that nil-ness, what held on that edge holds here
+			if v, neq, ok := nilCompare(x); ok {
+				ph, isPhi := resolveLocal(v).(*ssa.Phi)
+				if !isPhi {
+					break
+				}
+				nonNil := neq == f.Pol
+				var cand []int
+				for i, e := range ph.Edges {
+					switch {
+					case isNilConst(e):
+						if !nonNil {
+							cand = append(cand, i)
+						}
+					case syntacticallyNonNil(e):
+						if nonNil {
+							cand = append(cand, i)
+						}
+					default:
+						cand = append(cand, i)
+					}
+				}
+				if len(cand) == 1 {
+					pred := ph.Block().Preds[cand[0]]
+					for _, pf := range factsAt(pred) {
+						push(pf, depth+1)
+					}
+					if ifi, ok := pred.Instrs[len(pred.Instrs)-1].(*ssa.If); ok && pred.Succs[0] != pred.Succs[1] {
+						if pred.Succs[0] == ph.Block() {
+							push(Fact{ifi.Cond, true, ifi}, depth+1)
+						} else {
+							push(Fact{ifi.Cond, false, ifi}, depth+1)
+						}
+					}
+					// and the phi's value is that edge's value
+					if e := ph.Edges[cand[0]]; !isNilConst(e) {
+						if bo, ok := x.X.(*ssa.Const); ok {
+							_ = bo
+						}
+					}
+				}
+			}
 		}
 	}
 	for _, f := range fs {
@@ -880,4 +924,75 @@ func resolveAt(v ssa.Value, at *ssa.BasicBlock) ssa.Value {
 		v = only
 	}
 	return v
+}
+
+// reachesBlock: can control get from block `from` (entered from pred) to target, not
+// following branch edges that the incoming edge decides (decidedSucc)?
+func reachesBlock(from, pred, target *ssa.BasicBlock) bool {
+	return reachesBlockAvoiding(from, pred, target, nil)
+}
+
+// reachesBlockAvoiding additionally never follows an edge for which avoid returns true.
+func reachesBlockAvoiding(from, pred, target *ssa.BasicBlock, avoid func(from, to *ssa.BasicBlock) bool) bool {
+	type st struct{ b, p *ssa.BasicBlock }
+	seen := map[st]bool{}
+	work := []st{{from, pred}}
+	for len(work) > 0 {
+		x := work[len(work)-1]
+		work = work[:len(work)-1]
+		if seen[x] {
+			continue
+		}
+		seen[x] = true
+		if x.b == target {
+			return true
+		}
+		exits := false
+		for _, in := range x.b.Instrs {
+			if kind, isEnd := stdEnds(in); isEnd && kind == "exit" {
+				exits = true // os.Exit / log.Fatal: control does not continue
+			}
+		}
+		if exits {
+			continue
+		}
+		only, decided := decidedSucc(x.b, x.p)
+		for _, s := range x.b.Succs {
+			if decided && s != only {
+				continue
+			}
+			if avoid != nil && avoid(x.b, s) {
+				continue
+			}
+			work = append(work, st{s, x.b})
+		}
+	}
+	return false
+}
+
+// defAt: where the value v used at block `at` comes from - through interface boxing, local
+// cells, parameter temporaries and the phis that the facts at `at` resolve.
+func defAt(v ssa.Value, at *ssa.BasicBlock) ssa.Value {
+	for i := 0; i < 6; i++ {
+		nv := peel(resolveAt(peel(v), at))
+		if nv == v {
+			return v
+		}
+		v = nv
+	}
+	return v
+}
+
+// syntacticallyNonNil: an error value that is non-nil by construction.
+func syntacticallyNonNil(v ssa.Value) bool {
+	switch x := v.(type) {
+	case *ssa.Call:
+		switch calleeKey(&x.Call) {
+		case "fmt.Errorf", "errors.New":
+			return true
+		}
+	case *ssa.MakeInterface:
+		return true
+	}
+	return false
 }
